@@ -91,6 +91,8 @@ pub trait OpDriver: Send + Sync {
     fn request_debug_with_credentials(&self, access_key: &str, secret: &str) -> String;
     /// the typed result a scripted backend should return
     fn scripted_output(&self, alts: &[usize], status: Option<http::StatusCode>, headers: http::HeaderMap) -> AnyBox;
+    /// bytes of the generated output's stream member (None if the output has no stream set)
+    fn output_body<'a>(&'a self, alts: &'a [usize]) -> BoxFuture<'a, Option<Vec<u8>>>;
     /// a typed Err result for a scripted backend
     fn scripted_error(&self, err: S3Error) -> AnyBox;
     /// members of a received S3Response<Output> (boxed) that differ from the generated output
@@ -193,6 +195,15 @@ where
         r.status = status;
         r.headers = headers;
         Box::new(Ok::<_, S3Error>(r))
+    }
+    fn output_body<'a>(&'a self, alts: &'a [usize]) -> BoxFuture<'a, Option<Vec<u8>>> {
+        Box::pin(async move {
+            let mut o = self.output(alts);
+            match o.take_out_body() {
+                Some(b) => drain_blob(Some(b)).await.ok(),
+                None => None,
+            }
+        })
     }
     fn scripted_error(&self, err: S3Error) -> AnyBox {
         Box::new(Err::<S3Response<O>, S3Error>(err))
